@@ -316,6 +316,8 @@ func init() {
 			j = mk("c10.single."+c.name, rootPkg, "ZZ_C10_Single", cfgParams(c.exp, c.ref, c.bound, c.max, 1, 0), func(b *Bounds) { b.Unwind = 12 })
 			js = append(js, j)
 		}
+		js = append(js, mk("c10.bulkstale.r_writing", rootPkg, "ZZ_C10_BulkStale", cfgParams(0, 2, 0, 0, 0, 0), func(b *Bounds) { b.Unwind = 12; b.MapOrders = 2 }))
+		js = append(js, mk("c10.bulkstale.r_creating", rootPkg, "ZZ_C10_BulkStale", cfgParams(0, 1, 0, 0, 0, 0), func(b *Bounds) { b.Unwind = 12; b.MapOrders = 2 }))
 		j := mk("c10.canary", rootPkg, "ZZ_C10_Bulk", with(cfgParams(2, 0, 0, 0, 1, 0), "reqlen", 2, "canary", 1), func(b *Bounds) { b.Unwind = 12 })
 		j.Canary = "c10.canary"
 		return append(js, j)
